@@ -55,7 +55,8 @@ def default_problem_judge(value):
     if value.get('problems'):
         p = value['problems'][0]
         cls = p.get('kind') or p.get('problem') or 'problem'
-        cls = str(cls).split(' (')[0][:60].replace(' ', '-')
+        import re
+        cls = re.sub(r'\d+', 'N', str(cls).split(' (')[0])[:60].replace(' ', '-').replace(',', '')
         return ('violation', cls, cls, p)
     return None
 
@@ -120,7 +121,7 @@ def run_check(prop, args, fn, gen, rule, signature, nontrivial, candidates, engi
     t_start = time.time()
     stop = False
     rounds = 0
-    while time.time() - t_start < budget and not stop:
+    while (rounds == 0 or time.time() - t_start < budget) and not stop:
         rounds += 1
         hists = [gen(rng, args.tier) for _ in range(per_round)]
         for h in hists:
